@@ -523,6 +523,28 @@ func valuePath(v ssa.Value) string {
 	case *ssa.FreeVar:
 		return x.Name()
 	case *ssa.Alloc:
+		// a local that is assigned exactly once stands for the value assigned to it
+		var stores []*ssa.Store
+		for _, r := range *x.Referrers() {
+			if st, ok := r.(*ssa.Store); ok && st.Addr == ssa.Value(x) {
+				stores = append(stores, st)
+			}
+		}
+		if len(stores) == 1 {
+			if _, isParam := stores[0].Val.(*ssa.Parameter); !isParam {
+				if _, isConst := stores[0].Val.(*ssa.Const); !isConst {
+					if _, isCall := stores[0].Val.(*ssa.Call); !isCall {
+						if _, isUn := stores[0].Val.(*ssa.UnOp); isUn && x.Comment != "" {
+							if u := stores[0].Val.(*ssa.UnOp); u.Op == token.MUL {
+								if _, fromIdx := u.X.(*ssa.IndexAddr); fromIdx {
+									return valuePath(stores[0].Val)
+								}
+							}
+						}
+					}
+				}
+			}
+		}
 		return x.Comment
 	case *ssa.Global:
 		return x.Pkg.Pkg.Name() + "." + x.Name()
@@ -550,7 +572,11 @@ func valuePath(v ssa.Value) string {
 			return "call " + callee.Name() + "(" + strings.Join(as, ",") + ")"
 		}
 		if x.Call.IsInvoke() {
-			return "call " + x.Call.Method.Name() + "(" + valuePath(x.Call.Value) + ")"
+			as := []string{valuePath(x.Call.Value)}
+			for _, a := range x.Call.Args {
+				as = append(as, valuePath(a))
+			}
+			return "call " + x.Call.Method.Name() + "(" + strings.Join(as, ",") + ")"
 		}
 		var as []string
 		for _, a := range x.Call.Args {
@@ -561,11 +587,15 @@ func valuePath(v ssa.Value) string {
 		return valuePath(x.X)
 	case *ssa.ChangeType:
 		return valuePath(x.X)
+	case *ssa.Convert:
+		return valuePath(x.X)
 	case *ssa.Const:
 		if x.Value == nil {
 			return "nil"
 		}
 		return x.Value.String()
+	case *ssa.BinOp:
+		return valuePath(x.X) + x.Op.String() + valuePath(x.Y)
 	case *ssa.Index:
 		return valuePath(x.X) + "[" + valuePath(x.Index) + "]"
 	case *ssa.IndexAddr:
